@@ -92,6 +92,22 @@ def run(fx, R, tier):
 
 
 
+def head_fact(f, cname):
+    """(True, message) when the largest side is searched over fewer leading coordinates than the Cartesian dimension of this point type."""
+    D = 2 if ('Coordinates2' in cname or ', 2, 1' in cname) else 3
+    for x in walk(f['body']):
+        if x.get('k') == 'MCall' and x.get('m') == 'maxCoeff':
+            o = strip_casts(x['obj'])
+            while o.get('k') == 'MCall' and o.get('m') in ('array', 'matrix', 'cwiseAbs', 'abs', 'eval'):
+                o = strip_casts(o['obj'])
+            if o.get('k') == 'MCall' and o.get('m') in ('head', 'topRows') and len(o.get('args', [])) == 1:
+                n = const_value(o['args'][0])
+                if isinstance(n, int) and n < D:
+                    return (True, 'the largest side is searched over the first %d coordinate(s) only (`%s`), this point type has %d Cartesian axes: when the set is longest along the last axis the '
+                                  'reported scale is the reciprocal of a shorter side' % (n, pp(x), D))
+    return (False, '')
+
+
 def extrema_step(fx, f, seeds):
     """Step semantics of the point loop of compute() on one generic coordinate, on witness states (E-STEP).
     Returns ('holds', n) | ('violated', text) | ('undecided', reason)."""
@@ -247,7 +263,7 @@ def check_seeds_and_stats(fx, R):
                 'mean = sum / size', fx.rel(f['loc']), 'E-ALG')
         R.form(('=', 'this.scale_', ('/', 1, ('.maxCoeff', ('-', 'this.pointSetMax_', 'this.pointSetMin_')))) in ex, 'B7', '%s::compute:scale' % cname,
                 'scale is not 1/maxCoeff(max-min): %s' % [s for s in ex if 'scale_' in str(s) and s[0] == '='], 'scale = 1/maxCoeff(max - min)', fx.rel(f['loc']), 'E-ALG',
-                facts=[(('=', 'this.scale_', ('/', 1, ('.minCoeff', ('-', 'this.pointSetMax_', 'this.pointSetMin_')))) in ex,
+                facts=[head_fact(f, cname)] + [(('=', 'this.scale_', ('/', 1, ('.minCoeff', ('-', 'this.pointSetMax_', 'this.pointSetMin_')))) in ex,
                         'scale is 1/minCoeff(max - min): the reciprocal of the SMALLEST side, not of the largest one (the preconditioned set then exceeds the unit box; a flat set divides by zero)'),
                        (('=', 'this.scale_', ('.maxCoeff', ('-', 'this.pointSetMax_', 'this.pointSetMin_'))) in ex, 'scale is the largest side itself, not its reciprocal')])
         # order: mean/scale computed after the loop, min/max reset before it
@@ -535,11 +551,27 @@ def check_obb(fx, R):
         decl = [vv for s_ in walk(t['body']) if s_.get('k') == 'Decl' for vv in s_['vars'] if vv['name'] == accname]
         zero = bool(decl) and 'Zero' in str(sx(decl[0].get('init')))
         ret = returns(t)
-        ret_ok = len(ret) == 1 and isinstance(ret[0], tuple) and ret[0][1:] == (C, accname)
+        # paths that leave before the accumulation loop
+        from .. import earlyexit
+        ttop = t['body']['s'] if t['body'] and t['body'].get('k') == 'Compound' else []
+        li = next((i for i, x_ in enumerate(ttop) if x_ is L or any(y_ is L for y_ in walk(x_))), None)
+        early = earlyexit.exits_before(ttop, li)
+        for (node_, ctext_, tol_) in early:
+            if tol_ and 'rotation' in ctext_:
+                R.violated('B6', 'OrientedBoundingBox::toAxisAlignedBoundingBox:tolerance-exit', 'under `%s` the un-rotated box is returned; the test is %s, so a proper rotation by a tiny but non-zero angle (inside '
+                           '"every proper rotation") takes the shortcut: the derived box has the extents h instead of |R| h, and for an elongated box (h_other * angle above rounding) corners of the oriented '
+                           'box lie outside it [%s]' % (ctext_, tol_, cname), fx.rel(node_['loc']), 'E-STATE')
+            else:
+                R.undecided('B6', inst + ':early-exit', 'a path returns before the column loop under `%s`' % ctext_)
+        main_ret = [r_ for r_ in ret if isinstance(r_, tuple) and r_[1:] == (C, accname)]
+        ret_ok = len(main_ret) == 1 and len(ret) == 1 + len(early)
         if body[0][2] in (term, term2):
             ok = bound == dim and zero and ret_ok
-            R.check(ok, 'B6', inst, 'half extent sums |R.col(n)*h(n)| over n < %s of %d columns; accumulator starts at zero: %s; result (centre, extents): %s' % (bound, dim, zero, ret_ok),
-                    'half extent = sum_n |R.col(n) h(n)| over all %d columns, same centre' % dim, fx.rel(t['loc']), 'E-SIB')
+            R.form(ok, 'B6', inst, 'half extent sums |R.col(n)*h(n)| over n < %s of %d columns; accumulator starts at zero: %s; result (centre, extents): %s' % (bound, dim, zero, ret_ok),
+                   'half extent = sum_n |R.col(n) h(n)| over all %d columns, same centre' % dim, fx.rel(t['loc']), 'E-SIB',
+                   facts=[(isinstance(bound, int) and bound < dim, 'the column loop stops at n < %s: the contribution of the last %d column(s) of the rotation is missing from the enclosing extents' % (bound, dim - (bound if isinstance(bound, int) else 0))),
+                          (bool(decl) and not zero and 'Zero' not in str(sx(decl[0].get('init'))) and decl[0].get('init') is not None and 'halfWidth' in str(sx(decl[0].get('init'))),
+                           'the accumulator starts at the un-rotated half extents instead of zero: every extent is too large by h (the box is not tight)')])
         elif isinstance(body[0][2], tuple) and contains_name(body[0][2], '.row'):
             R.violated('B6', inst, 'enclosing half extent accumulates rows of the rotation (%s): it must accumulate |R.col(n)| * h(n)' % (body[0][2],), fx.rel(t['loc']), 'E-SIB')
         else:
